@@ -25,7 +25,7 @@ META = {
     'design_ref': 'DESIGN.md section 6/C09',
 }
 
-NAMES = ['C09_', 'C08_Unchanged', 'ReadFwd', 'C01_Ordered', 'HW', 'step']
+NAMES = ['C09_', 'C08_Unchanged', 'ReadFwd', 'CleanError', 'C01_Ordered', 'HW', 'step']
 
 
 def nontrivial(b):
